@@ -87,6 +87,48 @@ def locate(src, qualname, nparams=None):
     return found[0]
 
 
+def preprocess(body, defines, notes):
+    """#ifdef M / #ifndef M / #else / #endif for the macros named in `defines` (M -> is it defined): the inactive branch is blanked
+    (line numbers kept); conditionals on other macros are left for the caller (accepted only when they enclose no code)"""
+    if not defines: return body
+    out, stack = [], []            # stack of (known?, active?)
+    for line in body.split('\n'):
+        m = re.match(r'^[ \t]*#[ \t]*(ifdef|ifndef|else|endif)\b[ \t]*(\w*)', line)
+        if m:
+            d, name = m.group(1), m.group(2)
+            if d in ('ifdef', 'ifndef'):
+                if name in defines:
+                    stack.append((True, defines[name] == (d == 'ifdef')))
+                    notes.append('preprocessor: %s is %sdefined' % (name, '' if defines[name] else 'not '))
+                    out.append(''); continue
+                stack.append((False, True))
+            elif d == 'else' and stack and stack[-1][0]:
+                stack[-1] = (True, not stack[-1][1]); out.append(''); continue
+            elif d == 'endif' and stack:
+                known, _ = stack.pop()
+                if known:
+                    out.append(''); continue
+        out.append(line if all(a for _, a in stack) else '')
+    return '\n'.join(out)
+
+
+def c_unescape(lit):
+    """bytes of a C string / character literal (without the quotes)"""
+    esc = {'n': 10, 't': 9, 'r': 13, '0': 0, '\\': 92, "'": 39, '"': 34, 'v': 11, 'a': 7, 'b': 8, 'f': 12}
+    out, i = [], 0
+    while i < len(lit):
+        c = lit[i]
+        if c == '\\':
+            i += 1
+            if i >= len(lit) or lit[i] not in esc: raise Unsupported('escape sequence in literal ' + lit)
+            out.append(esc[lit[i]])
+        else:
+            b = c.encode('utf-8')
+            out.extend(b)
+        i += 1
+    return out
+
+
 def split_top(text):
     parts, depth, cur = [], 0, ''
     for c in text:
@@ -608,6 +650,7 @@ class Tr:
         # calls that READ AND WRITE state variables (explicit state passing):  key -> dict(term='f {$a} {$b} {0}', updates=['$a','$b'],
         # ret=type|None, args=[types]).  key = full call text for value calls ('GetAcknowledgement()'), callee for statements.
         self.calls_st = dict(t.get('calls_st', {}))
+        self.strtypes = t.get('strings')              # dict(string='bytes', char='byte', lit='%d%%N'): byte strings as lists, + is concatenation
         self.dict_shape = t.get('dict_shape')         # ('seg', ['begin', 'end']): new Dictionary({{"begin", x}, {"end", y}}) is the value (x, y) of type seg
         self.assigns = dict(t.get('assigns', {}))     # key of an lvalue (e.g. '[new MessageOrigin]->FromZone') -> state variable
         self.appends = dict(t.get('appends', {}))     # 'v.push_back' -> list-typed local v :  v := v ++ [argument]
@@ -673,6 +716,13 @@ class Tr:
             return (str(v), 'Z')
         if kind == 'bool':
             return ('true' if e[1] else 'false', 'bool')
+        if kind == 'str' and self.strtypes:
+            bs = c_unescape(e[1][1:-1])
+            return ('[' + '; '.join(self.strtypes['lit'] % b for b in bs) + ']', self.strtypes['string'])
+        if kind == 'chr' and self.strtypes:
+            bs = c_unescape(e[1][1:-1])
+            if len(bs) != 1: raise Unsupported('character literal ' + e[1])
+            return (self.strtypes['lit'] % bs[0], self.strtypes['char'])
         if kind == 'id':
             if e[1] in env.vals:
                 g, t, _ = env.vals[e[1]]
@@ -763,6 +813,8 @@ class Tr:
                 t = '%s %s %s' % (self.types[a[1]]['eqb'], P(a[0]), P(b[0]))
             else: raise Unsupported('equality of %s and %s' % (a[1], b[1]))
             return (t if op == '==' else 'negb %s' % P(t), 'bool')
+        if op == '+' and self.strtypes and a[1] == self.strtypes['string'] and b[1] in (self.strtypes['string'], self.strtypes['char']):
+            return ('%s ++ %s' % (P(a[0]), P(b[0]) if b[1] == a[1] else '[%s]' % b[0]), a[1])
         if op in ('+', '-', '*'):
             if not (num(a[1]) and num(b[1])): raise Unsupported('arithmetic on %s and %s' % (a[1], b[1]))
             t = '%s %s %s' % (P(a[0]), op, P(b[0]))
@@ -1218,7 +1270,8 @@ class Tr:
                    brk=lambda e2: 'XlBreak %s' % P(self.tup(names, e2.leave_scope(eb))), cont=nxt,
                    abort=(lambda e2: 'XlReturn %s' % P(ctx.abort(e2))) if ctx.abort else None)
         bt = self.ts(body, eb, bctx)
-        spat = ('(_ : unit)' if not names else (pat if len(names) == 1 else 'xl_st'))
+        sty = '(%s)%%type' % ' * '.join(P(self.coqtype(env.vals[n][1])) for n in names)
+        spat = ('(_ : unit)' if not names else (pat if len(names) == 1 else '(xl_st : %s)' % sty))
         inner = bt if len(names) <= 1 else 'let %s := xl_st in\n%s' % (pat, bt)
         pat2, e2 = self.rebind(names, env)
         loop = 'xl_for (R:=%s) (fun %s (%s : %s) =>\n%s)\n%s %s' % (self.rtype_of(ctx), spat, var, xt, inner, P(lterm), P(self.tup(names, env)))
@@ -1301,6 +1354,7 @@ def translate(target, src):
         def pp(m):
             if m.group(1).strip(): raise Unsupported('preprocessor conditional that encloses code')
             return '\n' * m.group(0).count('\n')
+        body = preprocess(body, target.get('defines', {}), tr.notes)
         body = re.sub(r'^[ \t]*#[ \t]*if(?:n?def)?\b[^\n]*\n(.*?)^[ \t]*#[ \t]*endif\b[^\n]*$', pp, body, flags=re.S | re.M)
         stmts = Parser(body).body()
         env = Env()
